@@ -179,6 +179,11 @@ func twinsC08(src *choice.Src, w *World, envReads []string) (tw []*World, dims [
 	}
 	{
 		t := w.Clone()
+		t.MetaSeed = seed64(src, "twin.meta") | 1
+		add("file-metadata", t)
+	}
+	{
+		t := w.Clone()
 		t.Clock = w.Clock + int64(1+src.Draw("twin.clock", 1<<26))
 		t.RandSeed = seed64(src, "twin.rand")
 		t.Pid = w.Pid + 1 + src.Draw("twin.pid", 1000)
